@@ -124,11 +124,15 @@ pub struct NetCfg {
     pub frame_budget: usize,
     /// Keep the full frame trace (disable for heap measurements).
     pub keep_trace: bool,
+    /// The sink buffers: a frame handed to `start_send` becomes visible to the link only when the sink is
+    /// flushed (or closed), as with a buffered writer under `Framed`. Frames still buffered when the sink is
+    /// dropped are lost.
+    pub flush_required: bool,
 }
 
 impl Default for NetCfg {
     fn default() -> Self {
-        Self { capacity: 0, delivery: Delivery::Eager, drop_visible: true, fault: None, frame_budget: 200_000, keep_trace: true }
+        Self { capacity: 0, delivery: Delivery::Eager, drop_visible: true, fault: None, frame_budget: 200_000, keep_trace: true, flush_required: false }
     }
 }
 
@@ -143,6 +147,8 @@ pub struct TraceEntry {
 
 #[derive(Default)]
 struct Link {
+    /// written but not yet flushed (only with `flush_required`)
+    unflushed: VecDeque<(usize, Bytes)>,
     queue: VecDeque<(usize, Bytes)>,
     released: usize,
     put_count: usize,
@@ -401,6 +407,7 @@ impl Sink<Bytes> for NetSink {
         let mut g = self.net.inner.lock().unwrap();
         let cap = g.cfg.capacity;
         let drop_visible = g.cfg.drop_visible;
+        let eager = matches!(g.cfg.delivery, Delivery::Eager);
         let l = &mut g.links[self.dir.idx()];
         if l.sink_err {
             return Poll::Ready(Err(broken("injected sink error")));
@@ -408,7 +415,21 @@ impl Sink<Bytes> for NetSink {
         if l.reader_gone && drop_visible {
             return Poll::Ready(Err(broken("peer closed")));
         }
-        if cap > 0 && !l.blackhole && l.queue.len() >= cap {
+        if cap > 0 && !l.blackhole && l.queue.len() + l.unflushed.len() >= cap {
+            // A buffering sink that is full writes its buffer out by itself (as `Framed::poll_ready` does above
+            // its back-pressure boundary); it never waits for its own unflushed frames.
+            if !l.unflushed.is_empty() {
+                while let Some(f) = l.unflushed.pop_front() {
+                    l.queue.push_back(f);
+                }
+                if eager && !l.starved {
+                    l.released = l.queue.len();
+                    if let Some(w) = l.reader_waker.take() {
+                        w.wake();
+                    }
+                }
+                self.net.notify.notify_one();
+            }
             l.writer_waker = Some(cx.waker().clone());
             return Poll::Pending;
         }
@@ -471,14 +492,19 @@ impl Sink<Bytes> for NetSink {
             mon.on_put(dir, seq, &item);
         }
         let eager = matches!(g.cfg.delivery, Delivery::Eager);
+        let buffered = g.cfg.flush_required;
         let l = &mut g.links[dir.idx()];
         l.put_count += 1;
         if !l.blackhole {
-            l.queue.push_back((seq, item));
-            if eager && !l.starved {
-                l.released = l.queue.len();
-                if let Some(w) = l.reader_waker.take() {
-                    w.wake();
+            if buffered {
+                l.unflushed.push_back((seq, item));
+            } else {
+                l.queue.push_back((seq, item));
+                if eager && !l.starved {
+                    l.released = l.queue.len();
+                    if let Some(w) = l.reader_waker.take() {
+                        w.wake();
+                    }
                 }
             }
         }
@@ -488,14 +514,31 @@ impl Sink<Bytes> for NetSink {
     }
 
     fn poll_flush(self: Pin<&mut Self>, _cx: &mut Context<'_>) -> Poll<Result<(), io::Error>> {
-        let g = self.net.inner.lock().unwrap();
+        let mut g = self.net.inner.lock().unwrap();
         if g.links[self.dir.idx()].sink_err {
             return Poll::Ready(Err(broken("injected sink error")));
+        }
+        let eager = matches!(g.cfg.delivery, Delivery::Eager);
+        let l = &mut g.links[self.dir.idx()];
+        if !l.unflushed.is_empty() {
+            while let Some(f) = l.unflushed.pop_front() {
+                l.queue.push_back(f);
+            }
+            if eager && !l.starved {
+                l.released = l.queue.len();
+                if let Some(w) = l.reader_waker.take() {
+                    w.wake();
+                }
+            }
+            drop(g);
+            bump_progress();
+            self.net.notify.notify_one();
         }
         Poll::Ready(Ok(()))
     }
 
-    fn poll_close(self: Pin<&mut Self>, _cx: &mut Context<'_>) -> Poll<Result<(), io::Error>> {
+    fn poll_close(self: Pin<&mut Self>, cx: &mut Context<'_>) -> Poll<Result<(), io::Error>> {
+        let _ = self.poll_flush(cx);
         Poll::Ready(Ok(()))
     }
 }
@@ -505,6 +548,8 @@ impl Drop for NetSink {
         let mut g = self.net.inner.lock().unwrap();
         let l = &mut g.links[self.dir.idx()];
         l.writer_gone = true;
+        // frames that were never flushed die with the writer's buffer
+        l.unflushed.clear();
         if let Some(w) = l.reader_waker.take() {
             w.wake();
         }
